@@ -28,6 +28,7 @@ from sqvm.builtins import Builtins
 from sqvm.shapes import shapes, instantiate, describe, has_opaque, ShapeError
 from sqvm.prove import Prover, StopJob
 from sqvm.corpus import std_sources, example_sources, test_sources, spec_sources
+from sqvm.gen_calls import programs as gen_call_programs
 
 PROP = "C01"
 MAX_SHAPES = 24
@@ -136,7 +137,8 @@ class Inhabit:
 
 
 def check_program(args):
-    name, src, timeout_ms, seed, max_fns, shape_budget_s = args
+    name, src, timeout_ms, seed, max_fns, shape_budget_s = args[:6]
+    call_template = args[6] if len(args) > 6 else None
     out = {"rejected_by_compiler": 0, "not_reproduced_via_source": 0, "budget_exhausted": 0, "name": name, "functions": 0, "shapes": 0, "goals": 0, "ok": 0, "fail": [], "inconclusive": [],
            "paths": 0, "instr": 0, "queries": 0, "solver_s": 0.0, "skipped_opaque": 0, "unsupported_paths": 0,
            "bounded_paths": 0, "samples": [], "witnesses": 0, "domain_errors": 0, "compiled": False}
@@ -209,19 +211,33 @@ def check_program(args):
                         return None
                     # replay through the public API: a source program applying the function, reached
                     # by its access path, to the literal argument
-                    call = "%s (%s)%s" % (lit, src, paths[id(fn)]) if not src.startswith("%") else \
-                        "%s %s%s" % (lit, src, paths[id(fn)])
-                    c2 = qv.compile(call, dump=False)
+                    if call_template is not None and paths[id(fn)] == "":
+                        call = call_template.replace("{LIT}", lit)
+                    elif src.startswith("%"):
+                        call = "%s %s%s" % (lit, src, paths[id(fn)])
+                    else:
+                        out["rejected_by_compiler"] += 1
+                        return None
+                    c2 = qv.compile(call, dump=True)
                     if not c2.get("ok"):
                         out["rejected_by_compiler"] += 1
                         return None
                     rr = qv.req(op="run", h=c2["h"], max_steps=2_000_000)
                     res = rr.get("result", {})
+                    site = "%s%s(%s)" % (name if call_template else src, paths[id(fn)],
+                                         desc.split("(", 1)[1].rstrip(")"))
                     if "error" in res and res["error"]["kind"] in STUCK_KINDS:
-                        return {"source": call, "fn": fn.fid, "arg": argj, "result": res,
-                                "site": "%s%s(%s)" % (src, paths[id(fn)], desc.split("(", 1)[1].rstrip(")")),
+                        return {"source": call, "fn": fn.fid, "arg": argj, "result": res, "site": site,
                                 "kind": res["error"]["kind"],
                                 "why": "VM-level type failure %s" % res["error"]["debug"]}
+                    if "value" in res:
+                        # the value of the accepted program must inhabit the type inferred for it
+                        p2 = Program(c2["bytecode"], c2["compat"])
+                        why2 = Inhabit(qv, c2["h"], p2).check(value_from_json(res["value"]), c2["result_type"])
+                        if why2 and why2 != "skip":
+                            return {"source": call, "fn": fn.fid, "arg": argj, "result": res, "site": site,
+                                    "kind": "ResultOutsideInferredType",
+                                    "why": "the value does not inhabit the inferred result type: " + why2}
                     out["not_reproduced_via_source"] += 1
                     return None
 
@@ -297,6 +313,12 @@ def main():
     max_fns = 60 if tier == "quick" else 400
     shape_budget_s = 4 if tier == "quick" else 20
     jobs = [(n, s, timeout_ms, rep.seed, max_fns, shape_budget_s) for n, s in srcs]
+    gen = gen_call_programs()
+    if tier == "quick":
+        gen = [g for g in gen if "/dispatch" in g["name"] or "/a_or_b/" in g["name"]]
+    for g in gen:
+        jobs.append((g["name"], g["src"], timeout_ms, rep.seed, 4, shape_budget_s,
+                     g["defs"] + "f = " + g["fn"] + ",\n{LIT} f"))
     with mp.Pool(16) as pool:
         results = pool.map(check_program, jobs, chunksize=1)
     progs = 0
@@ -331,7 +353,7 @@ def main():
         progs, tot["functions"], tot["shapes"])]
     rep.bounds = {"value depth": DEPTH, "shapes per function": "all up to %d (seeded sample beyond)" % MAX_SHAPES,
                   "steps per path": 3000, "paths per shape": 400,
-                  "programs": "std + examples" + (" + test-suite sources + spec examples" if tier == "thorough" else "")}
+                  "programs": "std + examples + generated generic call sites (sqvm/gen_calls.py: 5 library call templates x 7x7 argument makers x 2 consumers)" + (" + test-suite sources + spec examples" if tier == "thorough" else "")}
     rep.assumptions = [
         "program quantifier instantiated by the corpus; a checker hole that no corpus program exercises is NOT detected",
         "functions with function/process/generic parameters are skipped (counted in skipped_opaque); paths through concurrency instructions or unmodelled builtins on opaque binaries are skipped (unsupported_paths); paths hitting the step bound are counted (bounded_paths)",
